@@ -46,6 +46,10 @@ def main(argv=None):
     if args.replay:
         with open(args.replay) as f:
             doc = json.load(f)
+        if doc["case"].get("unhandled"):
+            print(f"this violation is an exception that escaped the explorer: {doc['case'].get('error')}")
+            print(f"it has no stand-alone case; re-run ./check {prop} to reproduce it")
+            return 1
         lines, violated = mod.replay(doc["case"])
         for ln in lines:
             print(ln)
@@ -113,7 +117,8 @@ def main(argv=None):
             # re-execute the stored case without the explorer: it must fail again (determinism guard)
             try:
                 with open(p) as f:
-                    _, again = mod.replay(json.load(f)["case"])
+                    case_ = json.load(f)["case"]
+                again = True if case_.get("unhandled") else mod.replay(case_)[1]
             except Exception as e:  # noqa: BLE001
                 again = None
                 print(f"  note: replay of {p} raised {type(e).__name__}: {e}")
